@@ -16,6 +16,7 @@ COQ = os.path.join(VERIF, "coq")
 OCAML = os.path.join(VERIF, "ocaml")
 CXX = os.path.join(VERIF, "cxx")
 GUARD = "LIBCSD_VERIF"
+OUT = os.environ.get("VERIF_OUT", VERIF)   # where evidence/ and replay/ are written (seed tests redirect it)
 
 sys.path.insert(0, os.path.join(VERIF, "tools"))
 import buildlib  # noqa: E402
@@ -101,13 +102,40 @@ def coq_make(targets=None, timeout=1500):
     return rc == 0, (o + e)[-6000:]
 
 
+REGENERATED = ("Properties_serial.v",)   # depend on gen/*.v regenerated from /repo on every run: handled by serial_side
+
+
+def serial_side(run, pid):
+    """Regenerate gen/Schema_gen.v from /repo's current source (tools/translate_schema.py, clang AST),
+    re-check Properties_serial.v against it and record the obligations of this property.
+    Returns (ok, failed_names)."""
+    import check_schema
+    r = check_schema.run(repo=REPO)
+    src = strip_coq_comments(open(os.path.join(COQ, "theories", "Properties_serial.v")).read())
+    names = [n for n in re.findall(r"\b(?:Theorem|Lemma|Corollary|Example)\s+([A-Za-z0-9_']+)", src) if n.startswith(pid + "_")]
+    failed = set(r.get("failed_obligation_names", []))
+    structural = [f for f in failed if not re.match(r"C\d\d_", f)]
+    mine = [n for n in names if n in failed]
+    for n in names:
+        run.oblige("regenerated obligation %s (Schema_gen.v from current source)" % n, n not in failed and not structural,
+                   "" if n not in failed else "no longer checks against the regenerated schema")
+    if structural:
+        run.oblige("schema translator + Schema_gen.v compile", False, "; ".join(structural) + "\n" + r.get("log", "")[-1500:])
+    run.extra["schema_check"] = {"ok": r.get("ok"), "failed": sorted(failed), "primary": r.get("primary_failures"),
+                                 "timing": r.get("timing"), "obligations_of_this_property": len(names)}
+    run.trusted = list(run.trusted) + ["tools/translate_schema.py (clang 14 -ast-dump=json walker) and the assumption that saveValue<T>/loadValue<T> "
+                                       "write/read exactly sizeof(T)(*count) bytes"]
+    ok = not mine and not structural
+    return ok, (mine + structural), r.get("log", "")
+
+
 def property_files(pid):
     """Every Properties_*.v that exports a theorem named <pid>_... (the property's own file and
     the per-component files)."""
     d = os.path.join(COQ, "theories")
     out = []
     for f in sorted(os.listdir(d)):
-        if f.startswith("Properties_") and f.endswith(".v"):
+        if f.startswith("Properties_") and f.endswith(".v") and f not in REGENERATED:
             src = strip_coq_comments(open(os.path.join(d, f)).read())
             if re.search(r"\b(?:Theorem|Lemma|Corollary|Example)\s+%s_" % pid, src):
                 out.append(f)
@@ -417,7 +445,7 @@ class Run:
             self.distinct.add(hashlib.sha1(repr(key).encode()).hexdigest())
 
     def write_replay(self, name, payload):
-        d = os.path.join(VERIF, "replay")
+        d = os.path.join(OUT, "replay")
         os.makedirs(d, exist_ok=True)
         h = hashlib.sha1(json.dumps(payload, sort_keys=True, default=str).encode()).hexdigest()[:10]
         p = os.path.join(d, "%s-%s-%s.json" % (self.pid, name, h))
@@ -473,8 +501,8 @@ class Run:
         ev = {"property_id": self.pid, "tier": self.tier, "seed": self.seed, "level": self.level,
               "coverage": cov, "assumptions": self.assumptions, "wall_s": round(wall, 2),
               "violations": len(self.violations)}
-        os.makedirs(os.path.join(VERIF, "evidence"), exist_ok=True)
-        with open(os.path.join(VERIF, "evidence", "%s.json" % self.pid), "w") as f:
+        os.makedirs(os.path.join(OUT, "evidence"), exist_ok=True)
+        with open(os.path.join(OUT, "evidence", "%s.json" % self.pid), "w") as f:
             json.dump(ev, f, indent=1, default=str)
         print("%s %s: obligations %d/%d, cases %d (%d distinct non-trivial), violations %d, known %d, %.1fs" %
               (self.pid, self.tier, ndis, nob, self.evaluations, len(self.distinct), len(self.violations), len(seen), wall))
